@@ -329,8 +329,8 @@ func (m *impl) step(t []string) string {
 
 func slashClean(p string) string { return path.Clean("/" + p) }
 
-// classify names the divergence class of op t (mem result rm, native result ro), using the
-// state of the memFS before the op (preKind of the paths involved).
+// classify names the divergence class of op t, using the state of the memFS before the op
+// (preKind of the paths involved): the three known findings, the contract's exception, or "".
 func classify(t []string, m *impl, preKind func(string) string) string {
 	switch t[0] {
 	case "open":
@@ -338,8 +338,6 @@ func classify(t []string, m *impl, preKind func(string) string) string {
 		fl := t[3]
 		k := preKind(p)
 		switch {
-		case strings.ContainsAny(fl, "as"):
-			return "open-append-sync-rejected"
 		case k == "dir" && t[2] != "0":
 			return "open-dir-for-writing"
 		case k == "dir" && strings.ContainsAny(fl, "ct"):
@@ -347,47 +345,13 @@ func classify(t []string, m *impl, preKind func(string) string) string {
 		case k == "file" && t[2] == "0" && strings.Contains(fl, "t"):
 			return "open-rdonly-trunc"
 		}
-	case "write":
-		if s, _ := m.slotOf(t[1]); s != nil {
-			switch {
-			case s.acc == 0:
-				return "write-on-rdonly-handle"
-			case t[2] == "-":
-				return "write-empty-extends"
-			}
-		}
-	case "read":
-		if s, _ := m.slotOf(t[1]); s != nil {
-			switch {
-			case s.acc == 1:
-				return "read-on-wronly-handle"
-			case t[2] == "0":
-				return "read-zero-length"
-			}
-		}
-	case "readdir":
-		if c, _ := strconv.Atoi(t[2]); c <= 0 {
-			return "readdir-all-after-partial"
-		}
 	case "rename":
-		a, _ := pathTok(t[1])
 		b, _ := pathTok(t[2])
-		if slashClean(a) == slashClean(b) {
-			switch {
-			case slashClean(a) == "/":
-				return "rename-root-to-itself"
-			case preKind(a) == "":
-				return "rename-same-name-missing"
-			}
-			return "allowed:rename-over-existing"
-		}
 		if preKind(b) != "" {
 			return "allowed:rename-over-existing"
 		}
-	case "removeall":
-		return "removeall-missing-parent"
 	}
-	return "memfs-native-divergence"
+	return ""
 }
 
 func exec(ops []string, o *vu.Out) {
